@@ -17,7 +17,7 @@ def build_jobs(tier, seed, kf_on):
 
     jobs = []
     # DAG programs that exercise CTE elimination (same step text on different sources, sub-pipelines used twice): every option set
-    for label, src, tables in c04.programs("quick", seed)[:15]:
+    for label, src, tables in c04.dag_programs():
         schema = {t: progs.SCHEMA[t] for t in tables}
         for o in OPTION_SETS:
             rows = {t: 2 for t in tables}
